@@ -149,9 +149,12 @@ pub fn quote_decode_into(
 	let mut decode_fields = Vec::new();
 	let mut sizes = Vec::new();
 	let mut non_zst_field_count = Vec::new();
-	for field in fields {
+	let mut guards = Vec::new();
+	for (index, field) in fields.iter().enumerate() {
 		let field_type = &field.ty;
-		decode_fields.push(quote! {{
+		let guard = quote::format_ident!("guard_{}_", index);
+		guards.push(guard.clone());
+		decode_fields.push(quote! { let #guard = {
 			let dst_: &mut ::core::mem::MaybeUninit<Self> = dst_; // To make sure the type is what we expect.
 
 			// Here we cast `&mut MaybeUninit<Self>` into a `&mut MaybeUninit<#field_type>`.
@@ -162,7 +165,8 @@ pub fn quote_decode_into(
 				&mut *dst_.as_mut_ptr().cast::<::core::mem::MaybeUninit<#field_type>>()
 			};
 			<#field_type as #crate_path::Decode>::decode_into(#input, dst_)?;
-		}});
+			DropGuard_(dst_.as_mut_ptr())
+		};});
 
 		if !sizes.is_empty() {
 			sizes.push(quote! { + });
@@ -181,7 +185,18 @@ pub fn quote_decode_into(
 		::core::assert_eq!(#(#sizes)*, ::core::mem::size_of::<Self>());
 		::core::assert!(#(#non_zst_field_count)* <= 1);
 
+		// Drops an already decoded field if decoding a later field fails or panics.
+		struct DropGuard_<T_>(*mut T_);
+		impl<T_> ::core::ops::Drop for DropGuard_<T_> {
+			fn drop(&mut self) {
+				// SAFETY: The guard is only created once the field was fully decoded.
+				unsafe { ::core::ptr::drop_in_place(self.0) }
+			}
+		}
+
 		#(#decode_fields)*
+
+		#( ::core::mem::forget(#guards); )*
 
 		// SAFETY: We've successfully called `decode_into` for all of the fields.
 		unsafe { ::core::result::Result::Ok(#crate_path::DecodeFinished::assert_decoding_finished()) }
